@@ -140,7 +140,11 @@ LF_TIE = (" The model is tied to the source on every run: the unmodified headers
 
 def register(PROPS, COMPONENTS):
     COMPONENTS["lockfam"] = dict(client="lockfam", driver="lockfam", directed_runs=2, quick_runs=1200, thorough_runs=40000,
-                                 oracle=oracle_lockfam)
+                                 oracle=oracle_lockfam,
+                                 cov_headers=["gmlc/libguarded/handles.hpp", "gmlc/libguarded/guarded.hpp",
+                                              "gmlc/libguarded/guarded_opt.hpp", "gmlc/libguarded/shared_guarded.hpp",
+                                              "gmlc/libguarded/shared_guarded_opt.hpp", "gmlc/libguarded/ordered_guarded.hpp",
+                                              "gmlc/libguarded/atomic_guarded.hpp"])
     PROPS["C01"] = dict(
         lean_files=["ConcVerif/Props/C01.lean"], components=["lockfam"], stage="B",
         level_text="Lean 4 theorems (kernel-checked; unbounded threads, client programs and interleavings; both mutex families) over "
